@@ -261,6 +261,48 @@ def grid_case(case, res):
             if not np.array_equal(c_, np.asarray(d_.chirp_from_signal(zn))):
                 res.violation("chirp|dask siblings", f"chirp #{k} of three built lazily in one graph differs from the eager chirp", case, {"k": k})
         res.hits["dask-backed siblings"] += 1
+        # ---- histories: a chirp handed to the caller is the caller's to modify; later dedispersions must not change
+        d0 = dms[0]
+        for how in ("chirp_function", "chirp_from_signal"):
+            try:
+                if how == "chirp_function":
+                    chs_ = [d0.chirp_function(N, zn.dt, f_, zn.center_freq) for f_ in zn.channel_freqs]
+                else:
+                    chs_ = [d0.chirp_from_signal(zn)]
+                for c_ in chs_:
+                    if isinstance(c_, np.ndarray) and c_.flags.writeable:
+                        c_[...] = 0
+                again = np.asarray(pb.coherent_dedispersion(zn, d0).data)
+            except Exception as e:
+                res.violation("dedisperse|history raised", f"{how}: {type(e).__name__}: {e}", case, {"how": how})
+                continue
+            res.transitions += 2
+            if again.shape != refs[0].shape or not np.array_equal(again, refs[0]):
+                res.violation("dedisperse|result depends on what the caller did to an earlier chirp", f"after zeroing the array returned "
+                              f"by {how} a new coherent_dedispersion differs from the first one", case, {"how": how})
+            res.hits["caller modified an earlier chirp"] += 1
+        # use the signal, re-assign its sample rate (and chan_bw, to keep the baseband contract), dedisperse: == freshly built signal
+        obj = type(zn).like(zn)
+        _ = (pb.coherent_dedispersion(obj, d0), obj.dt, obj.channel_freqs, obj.max_freq)
+        for factor in (2, 0.5):
+            r2 = obj.sample_rate * factor
+            obj.sample_rate = r2
+            obj.chan_bw = r2
+            fresh = type(zn).like(zn, sample_rate=r2)
+            try:
+                a_, b_ = pb.coherent_dedispersion(obj, d0), pb.coherent_dedispersion(fresh, d0)
+                ca, cb = np.asarray(d0.chirp_from_signal(obj)), np.asarray(d0.chirp_from_signal(fresh))
+            except Exception as e:
+                res.violation("dedisperse|assignment history raised", f"{type(e).__name__}: {e}", case, {"factor": factor})
+                break
+            res.transitions += 4
+            if not np.array_equal(ca, cb) or a_.shape != b_.shape or not np.array_equal(np.asarray(a_.data), np.asarray(b_.data)) or \
+                    T(a_.start_time) != T(b_.start_time):
+                res.violation("dedisperse|assignment history|stale sample spacing", f"after use and assigning sample_rate x {factor} the "
+                              f"chirp / dedispersed signal differ from those of a freshly built signal with that rate", case, {"factor": factor})
+                break
+        else:
+            res.hits["sample_rate assigned between dedispersions"] += 1
     res.sample({"band_MHz": BANDS[case["band"]], "nchan": nchan, "align": align, "N": N, "dm": 1.0, "ref": "top"}, 1)
 
 
@@ -353,7 +395,7 @@ def main(argv=None):
         PID, gen_cases=gen_cases, check_case=check_case, describe=describe,
         required_hits=["chirp checked", "|phi| > 1000 cycles (reduction mod 1 matters)",
                        "block shorter than the sweep (empty result)", "cropped on both ends (reference inside band)",
-                       "reference outside the band", "infinite reference frequency", "DM stored in another unit", "dask-backed siblings", "wave packet moved by its delay", "DM then -DM"],
+                       "reference outside the band", "infinite reference frequency", "DM stored in another unit", "dask-backed siblings", "caller modified an earlier chirp", "sample_rate assigned between dedispersions", "wave packet moved by its delay", "DM then -DM"],
         assumptions=["chirp is single precision by design; budget 8 eps32 + 2 pi |phi| 32 eps64 (1 + f_ref/|f - f_ref|) for the "
                      "float64 cancellation in 1/f_ref - 1/f", "Nyquist-bin frequency convention (+-sr/2) left open for even N",
                      "band-edge delays within 1e-9 of an integer leave the crop open"],
